@@ -481,7 +481,7 @@ func TestC12(t *testing.T) {
 	rec.Flush()
 	total := 4000 / cfg.NShards
 	if cfg.Thorough() {
-		total = 40000 / cfg.NShards
+		total = 160000 / cfg.NShards
 	}
 	rapidLoop(t, rec, "hist", total, 100, dl, func(rt *rapid.T) *failure {
 		c := tvCfg{Temps: rapid.IntRange(1, 4).Draw(rt, "temps"), Names: 8}
